@@ -12,6 +12,7 @@ import os
 from lib import core
 
 DRIVER = "drv_heap"
+LEAN_TARGETS = ["OmplModel.Props.C11", DRIVER]
 CMPS = ["less", "greater", "div4"]
 
 
@@ -440,8 +441,8 @@ def run(ck):
                    "model abstractions: swap-based sifting instead of hole-moving, handle lookup instead of the position field"]
     ck.assumptions += ["the comparison functor is a strict weak order (C++'s own requirement)",
                        "pop()/top() on an empty heap and use of a dead handle are outside the API contract and not exercised on the real code"]
-    ck.lean_build(["OmplModel.Props.C11", DRIVER])
-    ck.audit()
+    ck.lean_build(LEAN_TARGETS)
+    ck.audit(roots=["Drv.Heap"])
     if ck.tier == "thorough" and ck.lean_ok:
         ck.leanchecker(["OmplModel.Props.C11"])
     hbin = ck.build_harness("heap", ["heap.cpp"])
@@ -449,7 +450,7 @@ def run(ck):
     for name, script in corpus():
         if not judge(ck, hbin, script, "corpus"):
             bad += 1
-    nrand, ndir = (60, 60) if ck.tier == "quick" else (600, 600)
+    nrand, ndir = (250, 250) if ck.tier == "quick" else (1500, 1500)
     for i in range(nrand):
         if bad >= 3:
             break
